@@ -11,9 +11,12 @@ symbolic strings within any useful bound here):
   original-URL check it must resolve same-origin against the service's own base URL.
 
 Cookie half (engine `xh`): `_pack_oauth_cookie` -> tamper -> `_unpack_oauth_cookie` with an ideal
-MAC, an injective base64 stub and a symbolic integer clock: accepted <=> untampered and
-0 <= age <= max_age; and `_OAuthCallbackResource.on_get` completes (302) only with such a cookie
-and an equal state.
+MAC, an injective base64 stub and a symbolic integer clock: accepted => untampered and
+age <= max_age (and the fields handed out are the packed ones); untampered and 0 <= age < max_age
+=> accepted; clock skew (age < 0), the boundary second and max_age <= 0 are the implementation's
+choice.  `_OAuthCallbackResource.on_get` completes (= the exchanged token reaches the browser, as
+auth cookie or in a redirect fragment; a bare 302 is not a completion) only with such a cookie and
+an equal state, and then redirects same-origin.
 """
 
 from __future__ import annotations
@@ -459,7 +462,7 @@ def _replay_rt_host(args: dict) -> dict:
         r = pk._validate_return_to(url, _ALLOWED)
     except ValueError:
         r = ""
-    ref = whatwg_http_origin(url)
+    ref = whatwg_http_origin(r or url)  # the redirect goes to what the validator returns (normally the input itself)
     if r and not _safe_host_level(ref):
         py = up.urlsplit(url).hostname
         where = "parse failure" if ref is FAIL else (_origin_text(ref) if ref[0] != "other" else f"a {ref[1]}: URL")
@@ -490,9 +493,9 @@ def _run_rt_host(budget: float, combos: list[dict], shapes: list[tuple[int, int,
             r = _call_vrt(_vrt, url, _ALLOW_SCAN)
             if not r:
                 return True, "rejected"
-            if not (r == url):
-                return False, "returned a different URL"
-            ref = whatwg_http_origin(url)
+            # the redirect target is what the validator returns: judged as such, whether it is the input itself
+            # (today) or a normalised spelling of it
+            ref = whatwg_http_origin(r)
             if _safe_host_level(ref):
                 return True, "accepted-safe"
             if "\\" in url and is_open("C37:return_to:backslash-authority"):
@@ -564,7 +567,7 @@ def _replay_pct(args: dict) -> dict:
         r = pk._validate_return_to(url, _ALLOWED)
     except ValueError:
         r = ""
-    ref = whatwg_http_origin(url)
+    ref = whatwg_http_origin(r or url)
     if r and not _safe_host_level(ref):
         where = "parse failure" if ref is FAIL else (_origin_text(ref) if ref[0] != "other" else f"a {ref[1]}: URL")
         return {
@@ -575,7 +578,7 @@ def _replay_pct(args: dict) -> dict:
     return {"verdict": "INCONCLUSIVE", "detail": f"solver witness {url!r} did not reproduce on the real _validate_return_to"}
 
 
-@task(q=60, t=600, engine="sx", encoded=[pk._validate_return_to, pk._is_localhost, up.urlsplit.__wrapped__],
+@task(q=150, t=600, engine="sx", encoded=[pk._validate_return_to, pk._is_localhost, up.urlsplit.__wrapped__],
       bound="scheme in {http,https}; evil host before/after an acceptable host; one percent-encoded delimiter %r (symbolic choice) between the hosts or leading the authority, "
             "plus symbolic ASCII glue x,y with len(x)<=1, len(y)<=2, total<=%d" % (_PCT_TOKENS, pick(2, 3)),
       stubs=["allowed_origins := linear-scan container", "urlsplit := urlsplit.__wrapped__ (lru_cache bypassed)", "urllib.parse.unquote := sx_unquote (char-array model of the same function, validated each run)"])
@@ -601,9 +604,7 @@ def return_to_percent_encoded_delimiters(budget: float, replay=None) -> dict:
             r = _call_vrt(_vrt, url, _ALLOW_SCAN)
             if not r:
                 return True, "rejected"
-            if not (r == url):
-                return False, "returned a different URL"
-            if _safe_host_level(whatwg_http_origin(url)):
+            if _safe_host_level(whatwg_http_origin(r)):  # the redirect target = what the validator returns
                 return True, "accepted-safe"
             if is_open("C37:return_to:percent-encoded-delimiter"):
                 return True, "known"
@@ -630,7 +631,7 @@ def _replay_rt_port(args: dict) -> dict:
         r = pk._validate_return_to(url, _ALLOWED)
     except ValueError:
         r = ""
-    ref = whatwg_http_origin(url)
+    ref = whatwg_http_origin(r or url)
     if r and not _safe_origin(ref):
         return {
             "verdict": "VIOLATION",
@@ -666,7 +667,7 @@ def return_to_origin_includes_port(budget: float, replay=None) -> dict:
             r = _call_vrt(_vrt, url, _ALLOW_SCAN)
             if not r:
                 return True, "rejected"
-            ref = whatwg_http_origin(url)
+            ref = whatwg_http_origin(r)
             if _safe_origin(ref):
                 return True, "accepted-safe"
             if is_open("C37:return_to:port-ignored") and _safe_host_level(ref):
@@ -696,12 +697,12 @@ def _replay_orig(args: dict) -> dict:
     url = _HEADS[args["head"]] + args["g"] + "evil.example/x"
     prefix = _PREFIXES[args["prefix"]]
     r = pk._validate_original_url(url, prefix)
-    if r == url and not whatwg_relative_same_origin(url):
+    if not whatwg_relative_same_origin(r):  # r = what the callback sends as Location (the input itself, or its replacement)
         return {
             "verdict": "VIOLATION",
             "replayed": True,
-            "signature": "C37:original_url:" + ("backslash-netpath" if "\\" in url else "empty-authority-netpath" if _preprocess(url).startswith("///") else "not-same-origin"),
-            "detail": f"_validate_original_url({url!r}, {prefix!r}) returns it unchanged, and the callback sends it as the Location of the post-login 302: "
+            "signature": "C37:original_url:" + ("backslash-netpath" if "\\" in r else "empty-authority-netpath" if _preprocess(r).startswith("///") else "not-same-origin"),
+            "detail": f"_validate_original_url({url!r}, {prefix!r}) returns {'it unchanged' if r == url else repr(r)}, and the callback sends that as the Location of the post-login 302: "
             "a WHATWG browser resolves it to another host (the first two characters are slash-or-backslash after tab/newline removal)",
         }
     return {"verdict": "INCONCLUSIVE", "detail": f"solver witness {url!r} did not reproduce on the real _validate_original_url"}
@@ -740,7 +741,9 @@ def original_url_same_origin(budget: float, replay=None) -> dict:
                 url = _HEADS[h] + g + "evil.example/x"
                 r = _vou(url, _PREFIXES[p])
                 if not (r == url):
-                    return bool(r == (_PREFIXES[p] or "/")), "fallback"  # fallback must be the prefix root
+                    # replaced by something else (today: the prefix root): that replacement is the redirect target
+                    # and must itself stay same-origin; which same-origin path it is, is not stated
+                    return bool(whatwg_relative_same_origin(r)), "fallback"
                 if whatwg_relative_same_origin(url):
                     return True, "kept-same-origin"
                 if _orig_class_carved(url, carved):
@@ -786,7 +789,13 @@ _KEY = b"K" * 32
 
 
 class _Fresh(bytes):
-    """Tag of a message that was never signed: unpredictable, compares unequal to everything."""
+    """Tag of a message that was never signed: unpredictable, compares unequal to everything -
+    and so does any part of it (a slice stays a fresh value: comparing only a prefix of the tag
+    does not make an unsigned message's tag guessable)."""
+
+    def __getitem__(self, k):  # noqa: ANN001, ANN204
+        r = bytes.__getitem__(self, k)
+        return _Fresh(r) if isinstance(k, slice) else r
 
 
 class _IdealHmacObj:
@@ -921,9 +930,30 @@ def _attacker_raw(honest: bytes, mode: int, forged: bytes, n: int) -> bytes:
 _COOKIE_BOUND = "cookie = honest | ANY byte string of the honest length (%d) | honest truncated to any n | honest + any 1..2 bytes; integer clock in 990..1710 (cookie created at 1000, i.e. age -10..710 s; the live max age is 600), max_age in -1..700 (the expiry message renders both in decimal: unbounded ints fork per digit count)" % _HONEST_LEN
 
 
+def _cookie_zone(untampered: bool, age: int, max_age: int) -> str:
+    """What the property demands of the accept decision: 'must-reject' | 'must-accept' | 'either'.
+
+    "completes only with an untampered, unexpired session cookie": a tampered cookie and an expired one
+    (age > max_age) must be refused.  A clearly live, untampered cookie (0 <= age < max_age) must be accepted -
+    otherwise no login can complete.  Not stated, hence the implementation's choice: a cookie from the future
+    (age < 0: refuse, or tolerate clock skew), the boundary second age == max_age, and max_age <= 0
+    (an undocumented setting)."""
+    if not untampered:
+        return "must-reject"
+    if max_age <= 0:
+        return "either"
+    if age > max_age:
+        return "must-reject"
+    if 0 <= age < max_age:
+        return "must-accept"
+    return "either"
+
+
 def _real_cookie(args: dict, max_age: int):
     """The same scenario on the un-stubbed functions (real hmac/base64/struct/time): returns
-    (accepted, fields, untampered, fresh)."""
+    (accepted, fields, untampered, zone, cookie text).  A same-length forgery (mode 1) was chosen by the solver
+    relative to the harness's honest bytes (ideal-MAC tag, created_at=1000): the same byte-wise difference is
+    applied to the *real* honest cookie, so a near miss stays a near miss of the real MAC / real payload."""
     import base64
 
     age = args["now"] - _CREATED
@@ -935,50 +965,86 @@ def _real_cookie(args: dict, max_age: int):
     mode = args["mode"]
     if mode == 4:
         return None
-    raw = _attacker_raw(honest, mode, args["forged"], args["n"])
+    forged = args["forged"]
+    if mode == 1:
+        hh = _honest_raw()
+        if not (len(hh) == len(forged) == len(honest)):
+            return None
+        forged = bytes(h ^ f ^ r for h, f, r in zip(hh, forged, honest))
+    raw = _attacker_raw(honest, mode, forged, args["n"])
     try:
         got = pk._unpack_oauth_cookie(base64.urlsafe_b64encode(raw).decode("ascii"), _KEY, max_age)
         accepted = True
-    except ValueError:
-        got, accepted = None, False
-    except Exception as e:  # noqa: BLE001 - the callback only expects ValueError
-        got, accepted = f"raises {type(e).__name__}: {e}", True
-    fresh = max_age <= 0 or 0 <= age <= max_age
-    return accepted, got, raw == honest, fresh, base64.urlsafe_b64encode(raw).decode("ascii")
+    except Exception as e:  # noqa: BLE001 - refused (ValueError) or crashed: either way no fields come out
+        got, accepted = f"raises {type(e).__name__}: {e}", False
+    return accepted, got, raw == honest, _cookie_zone(raw == honest, age, max_age), base64.urlsafe_b64encode(raw).decode("ascii")
 
 
 def _replay_cookie(args: dict) -> str | None:
     r = _real_cookie(args, args["max_age"])
     if r is None:
         return None
-    accepted, got, untampered, fresh, _text = r
-    if accepted != (untampered and fresh) or (accepted and got != _FIELDS):
-        return (
-            f"real _unpack_oauth_cookie {'accepts' if accepted else 'rejects'} a cookie that is {'untampered' if untampered else 'TAMPERED (mode %d)' % args['mode']} "
-            f"with age={args['now'] - _CREATED}s, max_age={args['max_age']}s (fresh={fresh}); fields={got!r}"
-        )
+    accepted, got, untampered, zone, _text = r
+    what = f"{'untampered' if untampered else 'TAMPERED (mode %d)' % args['mode']} with age={args['now'] - _CREATED}s, max_age={args['max_age']}s"
+    if accepted and zone == "must-reject":
+        return f"real _unpack_oauth_cookie accepts a cookie that is {what}; fields={got!r}"
+    if not accepted and zone == "must-accept":
+        return f"real _unpack_oauth_cookie refuses a live cookie ({what}): {got}"
+    if accepted and got != _FIELDS:
+        return f"real _unpack_oauth_cookie accepts a cookie ({what}) but hands out {got!r}, packed were {_FIELDS!r}"
     return None
 
 
 def _replay_callback(args: dict) -> str | None:
     """Real on_get (real cookie codec); only the token exchange is replaced (it is a network call)."""
     r = _real_cookie(args, _MAXAGE) if args["mode"] != 4 else None
+    if r is None and args["mode"] != 4:
+        return None
     cookies = {}
-    untampered = fresh = False
+    untampered, zone = False, "must-reject"  # no session cookie at all: nothing to complete with
     if r is not None:
-        _acc, _got, untampered, fresh, text = r
+        _acc, _got, untampered, zone, text = r
         cookies[pk._SESSION_COOKIE_NAME] = text
+    if args["state"] != _FIELDS[1]:
+        zone = "must-reject"
     on_get = reglobalize(pk._OAuthCallbackResource.on_get, _exchange_code_for_token=_stub_exchange)
     req = _FakeReq({"code": "c0de", "state": args["state"]}, cookies)
     resp = _FakeResp()
-    on_get(_RES, req, resp)
-    completed = str(resp.status).startswith("302")
-    valid = untampered and fresh and args["state"] == _FIELDS[1]
-    if completed and not valid:
-        return f"real callback completes (302, auth cookie set) with untampered={untampered}, fresh={fresh}, state={args['state']!r} (expected {_FIELDS[1]!r})"
-    if not completed and valid:
-        return f"real callback refuses a valid session: status {resp.status}"
+    try:
+        on_get(_RES, req, resp)
+    except HarnessModelError:
+        raise
+    except Exception:  # noqa: BLE001 - a crash is an error response, not a completion
+        pass
+    delivered = _token_delivered(resp)
+    what = f"session cookie {'absent' if r is None else 'untampered' if untampered else 'TAMPERED (mode %d)' % args['mode']}, age={args['now'] - _CREATED}s (max {_MAXAGE}s), state={args['state']!r} (expected {_FIELDS[1]!r})"
+    if delivered and zone == "must-reject":
+        return f"real callback completes - hands the token to the browser ({delivered}) - with {what}"
+    if not delivered and zone == "must-accept":
+        return f"real callback refuses a valid session ({what}): status {resp.status}"
     return None
+
+
+def _token_delivered(resp) -> str:  # noqa: ANN001
+    """Completion of the flow = the exchanged token reaches the browser: as the auth cookie, or inside a header
+    (the Location fragment of the external-frontend redirect).  '' when it does not.  A 302 by itself - e.g. a
+    refusal that sends the browser back into the login flow - is not a completion."""
+    for name, value in resp.cookies:
+        if value and (name == pk._AUTH_COOKIE_NAME or _STUB_TOKEN in str(value)):
+            return f"cookie {name}"
+    for name, value in _resp_headers(resp):
+        if _STUB_TOKEN in str(value):
+            return f"header {name}"
+    return ""
+
+
+def _resp_headers(resp) -> list:  # noqa: ANN001
+    """Headers set through set_header/append_header, plus falcon's `resp.location = ...` spelling."""
+    loc = vars(resp).get("location")
+    return list(resp.headers) + ([("Location", loc)] if loc else [])
+
+
+_STUB_TOKEN = "T0KEN-c37"
 
 
 def _cookie_decision(forged: bytes, mode: int, n: int, now: int, max_age: int) -> bool:
@@ -988,14 +1054,15 @@ def _cookie_decision(forged: bytes, mode: int, n: int, now: int, max_age: int) -
     try:
         got = _unpack(_CookieText(raw), _KEY, max_age)
         accepted = True
-    except ValueError:
+    except HarnessModelError:
+        raise
+    except Exception:  # noqa: BLE001 - refused (ValueError) or crashed: no fields come out
         accepted = False
         got = None
-    except Exception:  # noqa: BLE001
+    zone = _cookie_zone(raw == honest, now - _CREATED, max_age)
+    if accepted and zone == "must-reject":
         return False
-    untampered = raw == honest
-    fresh = max_age <= 0 or 0 <= now - _CREATED <= max_age
-    if accepted != (untampered and fresh):
+    if not accepted and zone == "must-accept":
         return False
     if accepted and got != _FIELDS:
         return False
@@ -1036,8 +1103,16 @@ class _FakeResp:
     def set_header(self, k: str, v: str) -> None:
         self.headers.append((k, v))
 
-    def set_cookie(self, name: str, value: str, **kw) -> None:  # noqa: ANN003
+    append_header = set_header
+
+    def set_cookie(self, name: str, value: str, *a, **kw) -> None:  # noqa: ANN002, ANN003
         self.cookies.append((name, value))
+
+    def unset_cookie(self, name: str, *a, **kw) -> None:  # noqa: ANN002, ANN003
+        self.cookies.append((name, ""))
+
+    def __getattr__(self, name: str):
+        raise HarnessModelError(f"C37 response fake: .{name} is not modelled")
 
 
 class _FakeReq:
@@ -1045,12 +1120,22 @@ class _FakeReq:
         self._params = params
         self.cookies = cookies
 
-    def get_param(self, name: str):  # noqa: ANN201
-        return self._params.get(name)
+    def get_param(self, name: str, *a, default=None, **kw):  # noqa: ANN002, ANN003, ANN201
+        if kw.get("required"):
+            raise HarnessModelError("C37 request fake: get_param(required=True) is not modelled")
+        v = self._params.get(name)
+        return default if v is None else v
+
+    def get_cookie_values(self, name: str):  # noqa: ANN201
+        v = self.cookies.get(name)
+        return None if v is None else [v]
+
+    def __getattr__(self, name: str):
+        raise HarnessModelError(f"C37 request fake: .{name} is not modelled (get_param / cookies)")
 
 
-def _stub_exchange(**kw):  # noqa: ANN003
-    return ("TOKEN", 3600, None, None)
+def _stub_exchange(*a, **kw):  # noqa: ANN002, ANN003
+    return (_STUB_TOKEN, 3600, None, None)
 
 
 _on_get = reglobalize(
@@ -1099,14 +1184,23 @@ def callback_completes_only_with_valid_cookie_and_state(state: str, forged: byte
     resp = _FakeResp()
     try:
         _on_get(_RES, req, resp)
-    except Exception:  # noqa: BLE001
+    except HarnessModelError:
+        raise
+    except Exception:  # noqa: BLE001 - a crash is an error response, not a completion
+        pass
+    # completion = the token reaches the browser (auth cookie / redirect fragment); a bare 302 back into the login
+    # flow is a refusal like any error page
+    delivered = _token_delivered(resp) != ""
+    zone = "must-reject"
+    if raw is not None and state == _FIELDS[1]:
+        zone = _cookie_zone(raw == honest, now - _CREATED, _MAXAGE)
+    if delivered and zone == "must-reject":
         return False
-    completed = resp.status.startswith("302")
-    if not completed:
-        # refused: an error page, never a redirect, never the token cookie
-        return resp.status[:1] in ("4", "5") and not any(c[0] == pk._AUTH_COOKIE_NAME for c in resp.cookies) and not any(h[0] == "Location" for h in resp.headers)
-    valid = raw is not None and raw == honest and 0 <= now - _CREATED <= _MAXAGE and state == _FIELDS[1]
-    if not valid:
+    if not delivered and zone == "must-accept":
         return False
-    # completed: same-origin redirect to the packed original URL
-    return ("Location", _FIELDS[2]) in resp.headers
+    if delivered:
+        # no external return_to was packed: the post-login redirect must stay on the service's own origin
+        locs = [v for k, v in _resp_headers(resp) if k.lower() == "location"]
+        if not locs or not all(whatwg_relative_same_origin(v) for v in locs):
+            return False
+    return True
